@@ -23,10 +23,12 @@ CHECKS = {
         "assumptions": [],
         "quick": [
             H("u_selector::u_selector_n3", "real SelectorSubscriber::on_notify x3, all states/actions symbolic; oracle: de-duplicated selected-value stream with causing actions", "n=3, unwind 7"),
+            H("u_selector::u_selector_store_n2", "subscription made through StoreImpl::subscribe_with_selector on a store whose initial state is symbolic; the registered subscriber object is notified 2 symbolic (state, action) pairs; first notification must be delivered even if it selects the value of the state at subscription time", "n=2, unwind 7", timeout_s=400),
             H("u_selector::twin_u_selector", "vacuity twin: wrong oracle (fires on every notification) must be refuted", "n=2", role="twin"),
         ],
         "thorough": [
             H("u_selector::u_selector_n5", "same with 5 notifications", "n=5, unwind 7"),
+            H("u_selector::u_selector_store_n3", "through subscribe_with_selector, 3 notifications", "n=3, unwind 7", timeout_s=600),
         ],
     },
 }
